@@ -392,6 +392,77 @@ fn set_json(items: &[Item]) -> Value {
     json!(items.iter().map(|it| json!({"kind": it.kind, "path": it.rel(), "text": it.text, "rustfmt.toml": it.toml, "extra": it.extra})).collect::<Vec<_>>())
 }
 
+/// Inputs of one invocation whose module trees OVERLAP: a root together with one of its own out-of-line modules, the
+/// same path twice, two roots that share a module through `#[path]`.  The per-file output of every input must still be
+/// the one of its single-file run (nothing remembered from the inputs before it): stdout / stderr / json / checkstyle
+/// of the joint run are the concatenation of the single runs, whatever the order.
+fn overlapping(o: &mut Outcome, rng: &mut Rng, ctx: &Ctx, home: &Path, thorough: bool) -> (u64, u64) {
+    let mut direct = 0u64;
+    let mut distinct = 0u64;
+    for k in 0..(if thorough { 12 } else { 2 }) {
+        let dir = format!("ov{}", k);
+        let tag = format!("o{}", k);
+        let util = body(rng, &format!("{}u", tag));
+        let other = format!("{}fn  {}_extra( ){{ }}\n", body(rng, &format!("{}t", tag)), tag);
+        let shared_mod = body(rng, &format!("{}s", tag));
+        let lib = format!("mod   util ;\nmod other;\n{}", body(rng, &tag));
+        let ra = format!("#[path = \"shared.rs\"]\nmod   s ;\n{}", body(rng, &format!("{}a", tag)));
+        let rb = format!("#[path = \"shared.rs\"]\nmod   s ;\n{}", body(rng, &format!("{}b", tag)));
+        let all: Vec<(String, String)> = vec![("lib.rs".into(), lib.clone()), ("util.rs".into(), util.clone()), ("other.rs".into(), other.clone()), ("shared.rs".into(), shared_mod.clone()), ("a.rs".into(), ra.clone()), ("b.rs".into(), rb.clone())];
+        let mk = |file: &str| -> Item {
+            let text = all.iter().find(|(n, _)| n == file).unwrap().1.clone();
+            Item { kind: "overlap", dir: dir.clone(), file: file.to_string(), text, toml: None, extra: all.iter().filter(|(n, _)| n != file).cloned().collect(), missing: false }
+        };
+        // the command lines (indices into `items`)
+        let items: Vec<Item> = ["lib.rs", "util.rs", "other.rs", "a.rs", "b.rs", "shared.rs"].iter().map(|f| mk(f)).collect();
+        let lines: Vec<Vec<usize>> = vec![vec![0, 1], vec![1, 0], vec![0, 0], vec![1, 2, 0], vec![0, 2, 1], vec![3, 4], vec![4, 3], vec![5, 3], vec![3, 5, 4], vec![1, 1]];
+        let shared = ctx.fresh("ov");
+        materialise(&items[..1], &shared);
+        let mut single_jobs: Vec<(usize, usize)> = vec![];
+        for m in 0..MODES.len() {
+            for i in 0..items.len() {
+                single_jobs.push((m, i));
+            }
+        }
+        let singles_flat: Vec<RunOut> = par_map(&single_jobs, |(m, i)| invoke(ctx, &items, &[*i], *m, &shared, home, None, &[]));
+        let n = items.len();
+        let singles: Vec<Vec<RunOut>> = (0..MODES.len()).map(|m| singles_flat[m * n..(m + 1) * n].to_vec()).collect();
+        let joint_jobs: Vec<(usize, usize)> = (0..MODES.len()).flat_map(|m| (0..lines.len()).map(move |l| (m, l))).collect();
+        let joints: Vec<RunOut> = par_map(&joint_jobs, |(m, l)| invoke(ctx, &items, &lines[*l], *m, &shared, home, None, &[]));
+        for ((m, l), j) in joint_jobs.iter().zip(joints.iter()) {
+            if j.timed_out || singles[*m].iter().any(|r| r.timed_out) {
+                o.count("timeout");
+                continue;
+            }
+            direct += 1;
+            distinct += 1;
+            o.count(&format!("overlapping-inputs:{}", MODES[*m].0));
+            let mut fails = if MODES[*m].0 == "files" { vec![] } else { compare(*m, &lines[*l], &singles[*m], j, &items) };
+            if MODES[*m].0 == "files" {
+                // every file holds what the first single run that rewrites it leaves there, else the original
+                let pre = format!("{}/", dir);
+                for (name, orig) in &all {
+                    let key = format!("{}{}", pre, name);
+                    let want = lines[*l].iter().filter_map(|i| singles[*m][*i].after.get(&key)).find(|b| b.as_slice() != orig.as_bytes()).cloned().unwrap_or_else(|| orig.clone().into_bytes());
+                    if j.after.get(&key) != Some(&want) {
+                        fails.push(("c15:file-bytes-differ-from-the-single-run".to_string(), key.clone()));
+                    }
+                }
+                let want_exit = lines[*l].iter().map(|i| singles[*m][*i].exit.unwrap_or(-1)).max().unwrap_or(0);
+                if j.exit != Some(want_exit) {
+                    fails.push(("c15:exit-status-is-not-the-max-of-the-single-runs".to_string(), format!("joint {:?}", j.exit)));
+                }
+            }
+            for (sig, detail) in fails {
+                let names: Vec<&str> = lines[*l].iter().map(|i| items[*i].file.as_str()).collect();
+                fail(o, &sig, format!("{} [overlapping module trees, mode {}, command line {:?}] {}", sig, MODES[*m].0, names, detail), json!({"files": all.iter().map(|(n, t)| json!({"name": n, "text": t})).collect::<Vec<_>>(), "mode": MODES[*m].0, "command_line": names}));
+            }
+        }
+        let _ = std::fs::remove_dir_all(&shared);
+    }
+    (direct, distinct)
+}
+
 pub fn run(tier: &str, seed: u64, out: &Path) -> i32 {
     pool::install_panic_hook();
     let mut o = Outcome::new("C15", tier, seed);
@@ -691,6 +762,11 @@ pub fn run(tier: &str, seed: u64, out: &Path) -> i32 {
         }
         let _ = std::fs::remove_dir_all(&shared);
     }
+
+    // ---- inputs whose module trees overlap
+    let (d2, n2) = overlapping(&mut o, &mut rng, &ctx, &home, thorough);
+    direct += d2;
+    distinct += n2;
 
     // ---- enumerated probes (seed-independent)
     // F3: two overrides on one --config: applied in the iteration order of a HashMap
